@@ -1,3 +1,4 @@
+import Generated.Facts
 import Proofs.Codec
 import Props.C03
 import Model.Session
@@ -133,5 +134,11 @@ theorem C13_handshake_garbage (clean : Bool) (b0 b1 : UInt8) (rest : Bytes) (e :
 /-! ## Non-vacuity -/
 example : clientRemLen [0x85, 0x80, 0x80, 0x80, 0x00] 0 0 = some none := by decide
 example : clientRemLen [0xff, 0xff, 0xff, 0x7f, 0x01] 0 0 = some (some (268435455, [0x01])) := by decide
+
+/-- REGENERATED FACT. The functions that arm a read or write deadline with `time.Now().Add(D)` – as the extractor lists them on
+every run – all do so under a condition `D != 0`; the waits the harness observes as armed are armed by these functions. -/
+theorem C13_fact_deadlines_respect_zero_timeout :
+    Facts.deadlineArming = ["BigMessage.ReadAll", "Client.discard", "Client.handshake", "Client.peekPacket", "writeBuffersTo", "writeTo"] ∧
+    Facts.deadlineArmingUnguarded = [] := by decide
 
 end Model
